@@ -102,8 +102,8 @@ PROPS = {
     "C20": {
         "props_file": "Props/C20.v",
         "theorems": ["c20_cron_failed_item_requeued", "c20_cron_never_lost", "c20_cron_retry_converges", "c20_cron_retry_idempotent", "c20_status_failed_pass_requeued", "c20_status_retry_converges", "c20_status_exact_whatever_failed", "c20_queue_failed_start_changes_nothing", "c20_job_world_safe_whatever_fails", "c20_job_deletion_retry_converges"],
-        "families": [{"name": "faultdiff", "n_quick": 300, "n_thorough": 8000}, {"name": "recon", "n_quick": 200, "n_thorough": 6000}, {"name": "jcstatus", "n_quick": 200, "n_thorough": 6000}, {"name": "queue", "n_quick": 150, "n_thorough": 4000}],
-        "rule": "faultdiff: one workload run twice on the real controllers - with a finite random pattern of injected server errors / conflicts and without - both driven to quiescence (everything delivered, every rate-limited re-add fired, queue drained), final API state compared: (a) cron reconciler + ExecutionControl under reconciler.Controller.work: fixed JobConfigs, 2-7 schedule requests with duplicates, failures on create; compared: the set of Jobs with identity fields; (b) jobconfig status controller: a Job lifecycle history (create/start/phase/delete/schedule edits), failed status writes and conflicts on stale caches; compared: active/queued references, counts, state, and the high-water marks when no Job was deleted; (c) admission queue: 2-6 Jobs of all policies created up front, failed start and refuse writes; compared: started / refused Jobs and the counter; (d) job controller: one Job (1-3 indexes, 1-3 attempts, both strategies) whose tasks follow a fixed succeed/fail plan, the kubelet advances every live Pod each round, the Job key is worked only when the informer handlers, a due timer, the 10-minute resync or a failed pass put it on the queue; failures on Pod create/delete, Job update, status update, Job delete for 25 rounds; compared at quiescence: phase, recorded tasks and their results (phase only when an early end makes per-task results timing-dependent), TTL clean-up. The faulty cron-reconciler run is also a model case. recon / jcstatus / queue: the streams of C02 / C15 / C05 (their histories include injected failures, conflicts, retries and restarts) tie the worlds the theorems speak about to the code",
+        "families": [{"name": "faultdiff", "n_quick": 300, "n_thorough": 8000}, {"name": "recon", "n_quick": 200, "n_thorough": 6000}, {"name": "jcstatus", "n_quick": 200, "n_thorough": 6000}, {"name": "queue", "n_quick": 150, "n_thorough": 4000}, {"name": "jobsync", "n_quick": 120, "n_thorough": 3000, "shard_cap": 40}],
+        "rule": "faultdiff: one workload run twice on the real controllers - with a finite random pattern of injected server errors / conflicts and without - both driven to quiescence (everything delivered, every rate-limited re-add fired, queue drained), final API state compared: (a) cron reconciler + ExecutionControl under reconciler.Controller.work: fixed JobConfigs, 2-7 schedule requests with duplicates, failures on create; compared: the set of Jobs with identity fields; (b) jobconfig status controller: a Job lifecycle history (create/start/phase/delete/schedule edits), failed status writes and conflicts on stale caches; compared: active/queued references, counts, state, and the high-water marks when no Job was deleted; (c) admission queue: 2-6 Jobs of all policies created up front, failed start and refuse writes; compared: started / refused Jobs and the counter; (d) job controller: one Job (1-3 indexes, 1-3 attempts, both strategies) whose tasks follow a fixed succeed/fail plan, the kubelet advances every live Pod each round, the Job key is worked only when the informer handlers, a due timer, the 10-minute resync or a failed pass put it on the queue; failures on Pod create/delete, Job update, status update, Job delete for 25 rounds; compared at quiescence: phase, recorded tasks and their results (phase only when an early end makes per-task results timing-dependent), TTL clean-up. The faulty cron-reconciler run is also a model case. recon / jcstatus / queue / jobsync: the streams of C02 / C15 / C05 / C08-C13 (their histories include injected failures, conflicts, retries and restarts) tie the worlds the theorems speak about to the code; the job stream's monitor reports under C20 a Job that is refused (admission error) because of its own Pod left by an earlier failed pass",
         "trusted": ["as C02, C15, C05 for the three worlds"],
         "assumptions": ["partial: convergence is proved for the cron reconciler and the jobconfig status controller (a burst of n failures on one work item, then success) and 'a failed start changes nothing but the failure' for the admission queue; for the job controller (tasks created / killed / finalised under failures) there is no convergence theorem - its histories with create/delete/update failures are judged by the safety monitors of C08-C13 in their own checks", "Invalid (non-retryable) create errors become events and are not retried, by design: they are excluded from the differential runs", "timeouts after the write was applied (F8 hypothesis) are not generated", "the safety monitors of C02, C05, C06, C08-C13 run on the same fault-injecting streams in those properties' checks; they are not re-reported under C20"],
         "level_text": "Theorems: a failed cron work item is re-queued and leaves API and caches untouched; a queued key is never dropped except by error-free processing or a restart; after any n consecutive server errors the n+1-th attempt yields exactly the fault-free API (the Job exists once, queue empty); re-processing an existing schedule time changes nothing; a failed jobconfig status pass changes nothing and is re-queued, after n failed writes the fault-free status is written, and every settled state is exact whatever failed before; a failed start write in the admission queue only consumes the failure (counter rolled back). Differential runs on the real controllers compare faulty and fault-free final states.",
@@ -222,8 +222,8 @@ PROPS = {
     "C04": {
         "props_file": "Props/C04.v",
         "theorems": ["c04_reference", "c04_first_tick", "c04_no_repeat", "c04_never_scheduled_not_backscheduled", "c04_threshold_default"],
-        "families": [{"name": "cron", "n_quick": 160, "n_thorough": 4000}],
-        "rule": "same stream as C01 (cron): restarts at arbitrary instants with lastScheduled/lastUpdated/notBefore on the lattice around the restart time and thresholds 0/unset/60/120/300/600/negative",
+        "families": [{"name": "cron", "n_quick": 160, "n_thorough": 4000}, {"name": "jcstatus", "n_quick": 200, "n_thorough": 6000}],
+        "rule": "jcstatus: the stream of C15 (the value a restart resumes from is status.lastScheduled as the jobconfig controller stores it; its monitor reports, under C04, every write that moves it backwards). cron: same stream as C01: restarts at arbitrary instants with lastScheduled/lastUpdated/notBefore on the lattice around the restart time and thresholds 0/unset/60/120/300/600/negative",
         "trusted": CRON_TRUSTED,
         "assumptions": ["status.lastScheduled is what jobconfigcontroller persisted (its monotonicity is C15)"],
         "level_text": "Theorems: the reference time equals the max-of-four specification for all presence patterns and orderings; the first tick after a start requests exactly the first maxMissed fire times in (reference, now]; nothing at or before lastScheduled; never-scheduled JobConfigs are not back-scheduled. Tied to cronschedule.New/CronWorker by the cron stream.",
